@@ -8,6 +8,8 @@ Line protocol of the C10 model (one s-expression in, one out):
   (conv FUEL CE TERM)      -> (ok LHS RHS) | (err KIND)  conversion combinators
   (natnorm ONE NEXP)       -> NEXP                       data/nat.py norm_full (see Model.lean)
   (intsimp IEXP) / (intnorm IEXP) -> IEXP               simp_full / int_norm_conv (IntModel.lean)
+  (isnfishape IEXP)        -> T | F                      the normal-form shape of simp_full (isNFI)
+  (fragi IEXP IEXP)        -> T | F                      the hypothesis of int_norm_canonical (fragI)
   (intnormeq IEXP IEXP)    -> IEXP                       int_norm_eq: left side of the resulting `lhs = 0`
   (topoly EXPR)            -> ((((atom power) ...) num den) ...)   convert_to_poly (PolyModel.lean)
   (frompoly EXPR)          -> EXPR                       from_poly (convert_to_poly e)
@@ -169,6 +171,19 @@ def handle (line : String) : String :=
   | some (.list [.atom "intsimp", e]) =>
     match iexpOf e with
     | some e => toString (iexpTo (Holpy.C10.IntN.simpFull e))
+    | none => "bad-op"
+  | some (.list [.atom "isnfi", e]) =>
+    match iexpOf e with
+    | some e => toString (Sexp.list [Sexp.ofBool (Holpy.C10.IntN.atomicPowers e),
+        Sexp.ofBool (Holpy.C10.IntN.isNFI (Holpy.C10.IntN.simpFull e))])
+    | none => "bad-op"
+  | some (.list [.atom "fragi", a, b]) =>
+    match iexpOf a, iexpOf b with
+    | some a, some b => toString (Sexp.ofBool (Holpy.C10.IntN.fragI a b))
+    | _, _ => "bad-op"
+  | some (.list [.atom "isnfishape", e]) =>
+    match iexpOf e with
+    | some e => toString (Sexp.ofBool (Holpy.C10.IntN.isNFI e))
     | none => "bad-op"
   | some (.list [.atom "intnorm", e]) =>
     match iexpOf e with
